@@ -60,7 +60,7 @@ func (peerSet *PeerSet) WithNewPeer(peer *Peer) *PeerSet {
 func (peerSet *PeerSet) WithRemovedPeer(peer *Peer) *PeerSet {
 	peers := []*Peer{}
 	for _, p := range peerSet.Peers {
-		if p.PubKeyHex != peer.PubKeyHex {
+		if p.PubKeyString() != peer.PubKeyString() {
 			peers = append(peers, p)
 		}
 	}
